@@ -220,6 +220,22 @@ def family_interceptors():
     return out
 
 
+def family_overflow(idem):
+    """a message waits for space (Flush.MaxMessages / request size reached while a request is in flight)
+    and the in-flight request then fails: the waiting message must not overtake the bounced ones"""
+    out = []
+    for fname, plan in FAULT_KINDS[:6] + [("ok", {})]:
+        for nparts in (1, 2):
+            for rmax in (1, 3):
+                cfg = dict(idem=idem, retryMax=rmax, leaders=[1] * nparts, nbrokers=1, flushMaxMsgs=2, flushFreqMs=10)
+                p = dict(copy.deepcopy(plan), hold=True)
+                steps = submits([(1, 0), (2, 0)]) + [{"op": "wait_req", "n": 1, "ms": 800}]
+                steps += submits([(3, 0), (4, nparts - 1), (5, 0), (6, nparts - 1)]) + [{"op": "sleep", "ms": 30}, {"op": "release", "n": 1}]
+                steps += [{"op": "wait_outcomes", "n": 6, "ms": 3000}] + submits([(7, 0)]) + [{"op": "wait_outcomes", "n": 7, "ms": 3000}, {"op": "close"}]
+                out.append(sc("ovf-%s-p%d-r%d" % (fname, nparts, rmax), "overflow", cfg, steps, {"1": p}))
+    return out
+
+
 def family_faults_ic(seed):
     """fault scripts with a 2-interceptor chain (C18 over C01's retry corpus)"""
     out = []
